@@ -5,7 +5,7 @@
 (* from the spec's own constants (JSON key names, kinds, layouts); random  *)
 (* choices come from Prng keyed by VERIF_SEED.                              *)
 (***************************************************************************)
-EXTENDS DocAst, IOUtils, TLC
+EXTENDS DocAst, Tx, IOUtils, TLC
 
 Seed     == IF "VERIF_SEED" \in DOMAIN IOEnv THEN IOEnv.VERIF_SEED ELSE "0"
 Thorough == "VERIF_TIER" \in DOMAIN IOEnv /\ IOEnv.VERIF_TIER = "thorough"
@@ -135,6 +135,27 @@ ChainAt(j) ==
         base == Default(kind, <<5, j>>)
     IN  Item("chain", MkDoc([base EXCEPT !["chainId"] = NHexQty(c),
                                            !["nonce"] = NHexQty(BnFromNat(j % 4))]), j)
+
+\* ---- S: spec-directed search for signatures whose r or s has a leading zero byte ----
+\* (integers shorter than 32 bytes in the signature tail: about one signature in 128 each).
+\* The generator evaluates the specification (Parse, SigningDigest, Sign) on candidate nonces and
+\* keeps the first whose r (target 0) or s (target 1) starts with a zero byte.
+ShortKey == HexToBytes(SignKeys[2])
+ShortDoc(f, nonce) == MkDoc([f EXCEPT !["nonce"] = NHexQty(BnFromNat(nonce))])
+ShortHit(f, target, nonce) ==
+  LET sig == Sign(ShortKey, SigningDigest(Parse(ShortDoc(f, nonce)).tx))
+  IN  IF target = 0 THEN sig.r[1] = 0 ELSE sig.s[1] = 0
+\* some nonce in the window whose signature has the short integer (TLC picks the first in order; a window
+\* of 4000 candidates misses with probability < 1e-13)
+FindShort(f, target, from) == ShortDoc(f, CHOOSE k \in from..(from + 4000) : ShortHit(f, target, k))
+NShortSig == 3 * 2 * 2
+ShortSigAt(j) ==
+  LET kind   == Kinds[1 + ((j - 1) % 3)]
+      target == ((j - 1) \div 3) % 2
+      base   == Default(kind, <<12, j>>)
+      f      == IF kind = "legacy" /\ j > 6 THEN [base EXCEPT !["chainId"] = Absent] ELSE base
+  IN  [i |-> 0, op |-> "tx.sign", fam |-> "shortsig",
+       in |-> [doc |-> FindShort(f, target, 5000 * j), key |-> SignKeys[2]]]
 
 \* ---- F: random documents --------------------------------------------------
 RandomAt(j) ==
